@@ -104,6 +104,8 @@ func c01Cases(env vk.Env) []vk.Case {
 				list = append(list, cc{nt[0], nt[1], p, m})
 				i++
 			}
+			// threshold 0: the seeded signer subset is a single party (the whole session runs inside one handler)
+			list = append(list, cc{2, 0, p, "fresh"})
 		}
 	} else {
 		for n := 2; n <= 4; n++ {
